@@ -14,6 +14,7 @@ C09.e  [must-write] the per-cycle status accumulators are reset on every path th
 from lint import facts, ir, effects, anchors, loops, records, cfg as cfgmod
 from rules.c01 import who_may_call, tk_short
 from rules import c08
+from lint.common import AnalysisBroken
 
 LEVEL = 'other'
 
@@ -24,25 +25,45 @@ def outcome_rules(run, F, E):
         c = cfgmod.cfg_of(fn)
         failed = c.events(('call',), lambda n: n.e.get('m') == 'wrapPlanFailed')
         succ = c.events(('call',), lambda n: n.e.get('m') == 'wrapPlanSucceeded')
-        fires = c.events(('call',), lambda n: n.e.get('m') in ('changeTo', 'changeWith'))
-        clears = c.events(('call',), lambda n: n.e.get('m') == 'clear' and ir.is_expr(n.e.get('obj')) and ir.pp(ir.strip(n.e['obj'])) == 'plan()')
-        bf = [b for b in c.events(('branch',)) if b.e is not None and ir.pp(ir.strip(b.e)) == '(subStatus.result == FAILURE(2))']
-        bs = [b for b in c.events(('branch',)) if b.e is not None and ir.pp(ir.strip(b.e)) == '(subStatus.result == SUCCESS(1))']
-        bp = [b for b in c.events(('branch',)) if b.e is not None and ir.pp(ir.strip(b.e)).endswith('p.operator bool()')]
+        def callee(n):
+            g = F.fn(n.e['fn']) if n.e.get('fn') is not None else None
+            return (g.tkey.split('::')[-1], g.m) if g is not None else (None, n.e.get('m'))
+        # keyed on resolved callees / the parameter, never on local names or on the polarity a test is written in
+        clears = c.events(('call',), lambda n: callee(n) in (('PlanT', 'clear'), ('PayloadPlanT', 'clear')))
+        fires = c.events(('call',), lambda n: callee(n) in (('FullControlBaseT', 'changeTo'), ('FullControlT', 'changeWith')))
+
+        def status_is(k):
+            def pred(t):
+                t = ir.strip(t)
+                if t['k'] != 'bin' or t['op'] != '==':
+                    return False
+                for a_, b_ in ((t['l'], t['r']), (t['r'], t['l'])):
+                    a_ = ir.strip(a_)
+                    if a_['k'] == 'mem' and a_.get('f') == 'result' and ir.strip(a_['b']).get('vk') == 'param' and ir.strip(a_['b']).get('pi') == 1 and ir.const_val(b_) == k:
+                        return True
+                return False
+            return pred
+
+        def plan_nonempty(t):
+            t = ir.strip(t)
+            return t['k'] == 'call' and t.get('m') == 'operator bool' and 'PlanT<' in (t.get('cls') or '') and not (t.get('cls') or '').endswith('Iterator')
+        bf = ir.find_decisions(c, status_is(2))
+        bs = ir.find_decisions(c, status_is(1))
+        bp = ir.find_decisions(c, plan_nonempty)
         conds = {}
         shape = len(failed) == 1 and len(succ) == 1 and len(bf) == 1 and len(bs) == 1 and len(bp) == 1
         conds['recognised shape (one FAILURE test, one SUCCESS test, one plan-non-empty test)'] = shape
         if shape:
-            edge = lambda b, lab: [s for s, l in b.succ if l == lab][0]
-            conds['planFailed only on the FAILURE edge'] = c.dominates(edge(bf[0], 'T'), failed[0])
+            T, Fa = 1, 2     # index of the successor on which the condition is true / false
+            conds['planFailed only on the FAILURE edge'] = c.dominates(bf[0][T], failed[0])
             conds['planSucceeded only when not FAILURE, SUCCESS, and the plan is empty'] = \
-                c.dominates(edge(bf[0], 'F'), succ[0]) and c.dominates(edge(bs[0], 'T'), succ[0]) and c.dominates(edge(bp[0], 'F'), succ[0])
-            conds['no task fires in the FAILURE branch'] = all(c.dominates(edge(bf[0], 'F'), f) for f in fires) and bool(fires)
-            conds['tasks fire only while the plan is non-empty'] = all(c.dominates(edge(bp[0], 'T'), f) for f in fires)
+                c.dominates(bf[0][Fa], succ[0]) and c.dominates(bs[0][T], succ[0]) and c.dominates(bp[0][Fa], succ[0])
+            conds['no task fires in the FAILURE branch'] = all(c.dominates(bf[0][Fa], f) for f in fires) and bool(fires)
+            conds['tasks fire only while the plan is non-empty'] = all(c.dominates(bp[0][T], f) for f in fires)
             cf_ = [x for x in clears if c.dominates(failed[0], x)]
             cs_ = [x for x in clears if c.dominates(succ[0], x)]
-            conds['the plan is cleared after planFailed returns'] = len(cf_) == 1 and c.dominates(edge(bf[0], 'T'), cf_[0])
-            conds['the plan is cleared after planSucceeded returns'] = len(cs_) == 1 and c.dominates(edge(bp[0], 'F'), cs_[0])
+            conds['the plan is cleared after planFailed returns'] = len(cf_) == 1 and c.dominates(bf[0][T], cf_[0])
+            conds['the plan is cleared after planSucceeded returns'] = len(cs_) == 1 and c.dominates(bp[0][Fa], cs_[0])
             conds['neither callback is in a loop'] = not c.in_loop(failed[0]) and not c.in_loop(succ[0])
             # callbacks are delivered to the head state handed in
             for nme, n in (('planFailed', failed[0]), ('planSucceeded', succ[0])):
@@ -101,14 +122,26 @@ def cycle_status_reset(run, F, E):
     M = effects.MustWrites(E)
     for m in ('update', 'react'):
         for fn in F.find('R_', m):
-            c = cfgmod.cfg_of(fn)
-            step = [n for n in c.events(('call',)) if n.e.get('m') == 'deepUpdatePlans']
-            ok = len(step) == 1
+            # the plan step, looking through helper members of the root classes: at the level that contains the step, everything from
+            # the step to that function's exit; at each level above, everything strictly after the call that leads to the step
+            try:
+                chain = anchors.chain_to(F, E, fn, lambda g: g.m == 'deepUpdatePlans' and g.tkey == 'ffsm2::detail::C_')
+            except AnalysisBroken:
+                chain = None
+            ok = bool(chain)
             det = None
             if ok:
-                # the plan step itself must not reset them before reading: take the must-writes *after* the step's own reads,
-                # i.e. of everything from the step to the exit (a reset inside the step, after its read, counts too)
-                mw = M.after(fn, c, step[0])
+                f_k, c_k, n_k = chain[-1]
+                mw = set(M.after(f_k, c_k, n_k))
+                for (f_j, c_j, n_j) in reversed(chain[:-1]):
+                    up = set()
+                    for p in mw:
+                        rr = E.reroot(p, n_j.e, f_j)
+                        if len(rr) == 1:
+                            up |= rr
+                    tails = [set(M.after(f_j, c_j, s)) for s, _ in n_j.succ]
+                    strictly_after = set.intersection(*tails) if tails else set()
+                    mw = up | strictly_after
                 need = {('core', 'planData', 'headStatus', 'result'), ('core', 'planData', 'subStatus', 'result')}
                 ok = need <= mw
                 det = sorted(need - mw)
